@@ -3,6 +3,7 @@ package main
 import (
 	"fmt"
 	"os"
+	"sort"
 	"strings"
 	"time"
 
@@ -843,9 +844,7 @@ func cfEdits(body []*cfNode) [][]*cfNode {
 	var out [][]*cfNode
 	for i, n := range body {
 		del := append(append([]*cfNode(nil), body[:i]...), body[i+1:]...)
-		if len(del) > 0 || true {
-			out = append(out, cfClone(del))
-		}
+		out = append(out, cfClone(del))
 		for _, kb := range n.kids {
 			hoist := append(append(append([]*cfNode(nil), body[:i]...), kb...), body[i+1:]...)
 			out = append(out, cfClone(hoist))
@@ -862,9 +861,6 @@ func cfEdits(body []*cfNode) [][]*cfNode {
 		}
 		for ki, kb := range n.kids {
 			for _, e := range cfEdits(kb) {
-				if len(e) == 0 && len(n.kids) == 1 && false {
-					continue
-				}
 				c := cfClone(body)
 				c[i].kids[ki] = e
 				out = append(out, c)
@@ -878,7 +874,17 @@ func cfShrink(c *cfCase, failing func(*cfCase) (bool, string, string), budget in
 	cur := c
 	for progress := true; progress && budget > 0; {
 		progress = false
-		for _, e := range cfEdits(cur.body) {
+		edits := cfEdits(cur.body)
+		// the edits that remove most first
+		size := func(b []*cfNode) int {
+			n := 0
+			for _, x := range b {
+				x.walk(func(*cfNode) { n++ })
+			}
+			return n
+		}
+		sort.SliceStable(edits, func(i, j int) bool { return size(edits[i]) < size(edits[j]) })
+		for _, e := range edits {
 			if budget <= 0 {
 				break
 			}
